@@ -1,6 +1,4 @@
 """C08 — concurrent use of the public API on an open cache is free of data races, panics and deadlocks."""
-import os
-import re
 from ..cacheprop import CacheProp
 from .. import cachegen, core
 
@@ -58,30 +56,8 @@ class C08(CacheProp):
     def nontrivial(self, case, il):
         return any(l.startswith("blocked") for l in il)
 
-    def extra(self, ctx):
-        with core.Lock():
-            ok, log, _ = core.build_harness("root", race=True)
-        if not ok:
-            raise RuntimeError("race harness does not build: " + log[-800:])
-        rounds, ops = (5, 700) if ctx.tier == "quick" else (60, 2500)
-        env = {"VERIF_STRESS": "1", "VERIF_SEED": str(ctx.seed + 1), "VERIF_STRESS_ROUNDS": str(rounds),
-               "VERIF_STRESS_OPS": str(ops)}
-        rc, out = core.run_harness("root", os.devnull, os.devnull, race=True, timeout=900 if ctx.tier == "quick" else 3000,
-                                   run="^TestVerifStress$", extra_env=env)
-        m = re.search(r"stress ok rounds=(\d+) ops=(\d+)", out)
-        ctx.notes.append("race stress: %s (rc=%d)" % (m.group(0) if m else "no ok line", rc))
-        fails = []
-        hdr = "go test -race -run TestVerifStress with %s\n" % " ".join("%s=%s" % kv for kv in sorted(env.items()))
-        if "DATA RACE" in out:
-            i = out.index("WARNING: DATA RACE") if "WARNING: DATA RACE" in out else out.index("DATA RACE")
-            fails.append(("data race reported by the Go race detector in the concurrent stress", hdr + out[i:i + 3000]))
-        for kind in ("stress hang:", "stress panic:", "stress dupexit:"):
-            if kind in out:
-                i = out.index(kind)
-                fails.append(("concurrent stress: " + out[i:i + 200].splitlines()[0], hdr + out[max(0, i - 200):i + 2500]))
-        if not fails and (rc != 0 or not m):
-            fails.append(("concurrent stress did not complete (rc=%d)" % rc, hdr + out[-3000:]))
-        return [(f, "# property C08\n# " + f + "\n" + "".join("# " + l + "\n" for l in b.splitlines())) for f, b in fails]
+    stress_kinds = ("race", "hang", "panic", "dupexit", "stale", "wrongkey", "lost")
+    stress_race = True
 
 
 PROP = C08()
